@@ -161,6 +161,8 @@ def check_c12(res):
                 res.violations.append(Violation("bytes-after-length-change-result", docline(d + x, length=len(d)),
                                                 "%s vs %s" % (a[:300], base[d][:300]), cfg))
         res.sample(lines[5])
+        # tokens cut at every position with the rest of the token, a different completion, NUL or junk behind the length
+        check_following_bytes(res, cfg, "bytes-after-length-change-result")
     # the accelerated text-block line scanner (experimental flag): every special byte sequence of a block line --
     # closing delimiter, escaped triple quote, lone and doubled quote, backslash, line feed -- at every offset of
     # lines that span up to four 16-byte blocks, after 0..3 leading blanks, with and without bytes behind the input
@@ -471,6 +473,55 @@ def check_external_histories(res, cfg, kind, thorough):
 
 
 # =============================================================================== C07
+def following_bytes_cases(cfg):
+    """(prefix that is the input, tails that may stand behind it in memory): tokens cut at every position, alone and
+    inside collections; the tails continue the token, complete a different token, or are NUL / blank / junk"""
+    BS = b"\x5c"
+    toks = [b"##Inf", b"##-Inf", b"##NaN", BS + b"newline", BS + b"space", BS + b"tab", BS + b"return", BS + b"formfeed", BS + b"backspace",
+            BS + b"u0041", BS + b"a", b"nil", b"true", b"false", b"123456", b"-17", b"1.5e10", b"1e-5", b"12N", b"3.5M", b'"string"',
+            b'"a' + BS + b'nb"', b'"a' + BS + b'u0041b"', b":kw/name", b"sym", b"ns/sym", b"#inst 1", b"#_1 2", b"#{1 2}", b"[1 2]", b"{:a 1}"]
+    if cfg[0] == "1":
+        toks += [b"0x1F", b"017", b"1/2", b"-3/4", b"^:a [1]", b"#:n{:a 1}", BS + b"o101", b"36rZZ", b'"a' + BS + b'101b"']
+    if cfg[1] == "1":
+        toks += [b"1_000", b"1_0.5", b'"""\nab\n"""', b'"""\n  a"""']
+    cases = []
+    for tk in toks:
+        for cut in range(1, len(tk) + 1):
+            for (pre, post) in ((b"", b""), (b"[1 ", b"]"), (b"{:k ", b"}")):
+                head = pre + tk[:cut]
+                rest = tk[cut:] + post
+                tails = [b"", rest, rest + b" 1 2 3 4 5 6 7 8 9 0 1 2 3 4 5 6 7 8 9", b"\x00" * 20, b"f", b"e", b"0", b"a" * 20, b"\"" + b" " * 20,
+                         b"1" * 20, b" " * 20, BS * 20, b"\xff" * 20]
+                cases.append((head, tails))
+    return cases
+
+
+def check_following_bytes(res, cfg, kind_name):
+    """the result of reading the first n bytes is the same whatever stands behind them in the buffer"""
+    cases = following_bytes_cases(cfg)
+    lines, meta = [], []
+    for ci, (head, tails) in enumerate(cases):
+        for t in tails:
+            lines.append(docline(head + t, length=len(head)))
+            meta.append(ci)
+    impl, model = correspond(res, cfg, "san", lines, label="bytes-behind-the-length")
+    prod = runner.run_impl(cfg, "prod", lines)
+    res.evaluations += 2 * len(lines)
+    first = {}
+    for ci, ln, a, b in zip(meta, lines, impl, prod):
+        res.count("bytes-behind-the-length")
+        res.nontrivial.add((cfg, "behind", ln))
+        for which, obs in (("sanitized", a), ("-O2", b)):
+            if is_crash(obs):
+                res.violations.append(Violation(kind_name, ln[:3000], "%s build: %s" % (which, obs[:200]), cfg))
+                continue
+            key = (ci, which)
+            if key in first and first[key][1] != obs:
+                res.violations.append(Violation(kind_name, ln[:3000], "input %r (length %d): %s | with other bytes behind it (%s): %s"
+                                                % (cases[ci][0], len(cases[ci][0]), obs[:120], first[key][0][:80], first[key][1][:120]), cfg))
+            first.setdefault(key, (ln, obs))
+
+
 @prop("C07")
 def check_c07(res):
     rnd = random.Random(res.seed)
@@ -613,6 +664,36 @@ def check_c07(res):
                 res.violations.append(Violation("equal-false-beyond-depth-cap" if d >= 100 else "copies-not-equal", ln[:3000],
                                                 "two reads of %r nested %d deep: equal %s/%s, hashes %s %s, after hashing %s"
                                                 % (o, d, out[2], out[3], out[4], out[5], out[6]), cfg))
+        # the same literal in different surroundings: what FOLLOWS a token (a character literal, a string with escapes, a
+        # comment, nothing) must not leak into the value -- compared with the literal followed by plain integers
+        cl_, cm_ = [], []
+        BS = b"\x5c"
+        lits = [b'"' + b"abcdefghijklmnopqrstuvwxyz"[:k] + b'"' for k in (0, 1, 2, 3, 5, 7, 8, 9, 13, 14, 15, 16, 17, 20)]
+        lits += [b'"a' + BS + b'nb"', b'"q' + BS + b'"r"', b":kw", b":ns/kw", b"sym", b"ns/sym", b"17", b"-4.5", BS + b"a", BS + b"newline",
+                 b"12N", b"1.5M", b"nil", b"true"]
+        pad = b" 0 0 0 0 0 0 0 0 0 0"
+        ctxs = [b" 1", b" " + BS + b"a", b' "' + BS + b'n"', b" " + BS + BS, b";c\n:k", b" :k", b"," + BS + b"space", b" #_" + BS + b"a 2",
+                b' "' + BS + BS + b'"', b"\t" + BS + b"tab"]
+        # a string needs no separator in front of the next token
+        glued = [BS + b"a", b'"x' + BS + b'ty"']
+        for lit in lits:
+            base = b"[" + lit + ctxs[0] + pad + b"]"
+            for cx in ctxs[1:] + (glued if lit.startswith(b'"') else []):
+                other = b"[" + lit + cx + pad + b"]"
+                cl_.append("script P0=%s;P1=%s;E0.0,1.0;E1.0,0.0;H0.0;H1.0;E0.0,1.0" % (hexs(base), hexs(other)))
+                cm_.append((lit, cx))
+        cimpl, cmodel = correspond(res, cfg, "san", cl_, label="literal-in-context")
+        for (lit, cx), ln, a in zip(cm_, cl_, cimpl):
+            res.nontrivial.add((cfg, "context", lit, cx))
+            res.count("literal-in-context")
+            res.evaluations += 1
+            out = a.split(";")
+            if is_crash(a):
+                res.violations.append(Violation("equality-crash", ln[:3000], a[:200], cfg))
+            elif out[:2] == ["ok", "ok"] and (out[2:4] != ["1", "1"] or out[4] != out[5] or out[6] != "1"):
+                res.violations.append(Violation("same-literal-unequal-in-another-context", ln[:3000],
+                                                "%r followed by %r vs followed by integers: equal %s/%s, hashes %s %s, after hashing %s"
+                                                % (lit, cx, out[2], out[3], out[4], out[5], out[6]), cfg))
         res.sample({"cfg": cfg, "script": scripts[1][:300]})
 
 
@@ -1861,6 +1942,17 @@ def check_c14(res):
                 allseq = [s for s in allseq if rnd.random() < (0.02 if n == 4 and not thorough else 0.002 if n >= 5 else 1)]
             for sq in allseq:
                 seqs.append(list(sq) + ["l%s" % nme for nme in nameset])
+    # every sequence (no sampling) over TWO names that share a bucket, one level longer: chains with more than one entry
+    # are where re-registration and removal can go wrong
+    for pair in ((names[0], names[2]), (names2[0], names2[1]), (names2[1], names2[2])):
+        pops = []
+        for nme in pair:
+            pops += ["r%s:0" % nme, "r%s:1" % nme, "u%s" % nme, "l%s" % nme]
+        for n in range(1, min(L + 1, 6) + 1):
+            if n > min(L, 5) and pair != (names[0], names[2]):
+                continue
+            for sq in itertools.product(pops, repeat=n):
+                seqs.append(list(sq) + ["l%s" % nme for nme in pair])
     lines = ["reg " + ";".join(sq) for sq in seqs]
     for cfg in (CFGS if thorough else ["00", "11"]):
         impl, model = correspond(res, cfg, "san", lines, label="registry-ops", jobs=12)
@@ -2141,6 +2233,28 @@ def check_c18(res):
             if outs[cfg][i] != base:
                 res.violations.append(Violation("core-document-reads-differently-with-flags", ln,
                                                 "flags %s: %s vs core %s" % (cfg, outs[cfg][i][:200], base[:200]), cfg))
+    # names that extension code paths treat specially, in ordinary core positions: the `_` namespace (opt-out marker of
+    # namespaced maps) and its look-alikes as keys of plain maps, set elements, nested keys, colliding pairs
+    special = []
+    for ns in ("_", "__", "_x", "x_", "n"):
+        for col in (":", ""):
+            q, u = (col + ns + "/a").encode(), (col + "a").encode()
+            special += [b"{" + q + b" 1}", b"{" + q + b" 1 " + u + b" 2}", b"{" + u + b" 2 " + q + b" 1}", b"{" + q + b" {" + q + b" 1 " + u + b" 2}}",
+                        b"#{" + q + b" " + u + b"}", b"[" + q + b" " + u + b"]", b"{[" + q + b"] 1 [" + u + b"] 2}", b"{" + q + b" 1 " + q + b" 2}",
+                        b"(" + q + b")", q, b"{:k " + q + b"}", b"#t {" + q + b" 1 " + u + b" 2}", b"#_{" + q + b" 1} {" + q + b" 1 " + u + b" 2}"]
+    special += [b"{:_ 1 :_/_ 2}", b"{_ 1 _/_ 2 :_ 3}", b"{:a/_ 1 :a 2 :_ 3}"]
+    slines = [docline(d) for d in special]
+    souts = {}
+    for cfg in CFGS:
+        impl, model = correspond(res, cfg, "san", slines, label="special-names")
+        souts[cfg] = impl
+    for i, (d, ln) in enumerate(zip(special, slines)):
+        res.nontrivial.add(d)
+        res.count("special-name")
+        for cfg in CFGS[1:]:
+            if souts[cfg][i] != souts["00"][i]:
+                res.violations.append(Violation("core-document-reads-differently-with-flags", ln,
+                                                "%r flags %s: %s vs core %s" % (d, cfg, souts[cfg][i][:200], souts["00"][i][:200]), cfg))
     # every single-byte character literal, every string with one escape letter
     fam = [b"\\" + bytes([b]) + b" " for b in range(256)] + [b'"\\' + bytes([b]) + b'"' for b in range(256)]
     flines = [docline(d) for d in fam]
@@ -2214,7 +2328,7 @@ def check_c19(res):
                 entries.append("%s %d" % (k, i))
                 expanded.append("%s %d" % (x, i))
                 used.add(x)
-            sp = rnd.choice(["", " ", "\n"])
+            sp = rnd.choice(["", " ", "\n", ",", "\r", "\r\n", "\t", "\x0b", "\x0c", "\x1c", "\x1d", "\x1e", "\x1f", ";c\n", " ;c\n ", ",,"])
             d1 = ("#:%s%s{%s}" % (ns, sp, " ".join(entries))).encode()
             d2 = ("{%s}" % " ".join(expanded)).encode()
             scripts.append("script P0=%s;P1=%s;E0,1;E1,0;D0;D1;H0;H1" % (hexs(d1), hexs(d2)))
@@ -2230,6 +2344,24 @@ def check_c19(res):
                 res.violations.append(Violation("namespaced-map-accepted-differently-from-expansion", ln,
                                                 "%r -> %s but %r -> %s" % (d1, out[0], d2, out[1]), cfg))
             elif out[0] == "ok" and (out[2] != "1" or out[3] != "1" or out[4] != out[5] or out[6] != out[7]):
+                res.violations.append(Violation("namespaced-map-differs-from-expansion", ln, "%r vs %r: %s" % (d1, d2, a[:200]), cfg))
+        # every trivia byte (and short runs) between the prefix and the map, at top level and nested
+        seps_ = [bytes([b]) for b in WS_BYTES] + [b",", b";c\n", b"\r\n", b" \r", b"\r ", b"\x1f\x1f", b"\x1f ", b" \x1f", b",\r,"]
+        sscripts, smeta = [], []
+        for sp_ in seps_:
+            for (t1, t2) in ((b"#:p%s{:a 1 b 2}", b"{:p/a 1 p/b 2}"), (b"[#:p%s{:a 1 :_/b 2}]", b"[{:p/a 1 :b 2}]"), (b"{:k #:p%s{x 1}}", b"{:k {p/x 1}}"),
+                             (b"#:p%s{}", b"{}")):
+                d1 = t1.replace(b"%s", sp_)
+                sscripts.append("script P0=%s;P1=%s;E0,1;E1,0;D0;D1;H0;H1" % (hexs(d1), hexs(t2)))
+                smeta.append((d1, t2))
+        simpl, smodel = correspond(res, cfg, "san", sscripts, label="nsmap-separators")
+        for (d1, d2), ln, a in zip(smeta, sscripts, simpl):
+            res.nontrivial.add(d1)
+            res.count("nsmap-separator")
+            out = a.split(";")
+            if is_crash(a):
+                res.violations.append(Violation("nsmap-crash", ln, a, cfg))
+            elif out[0] != "ok" or out[1] != "ok" or out[2] != "1" or out[3] != "1" or out[4] != out[5] or out[6] != out[7]:
                 res.violations.append(Violation("namespaced-map-differs-from-expansion", ln, "%r vs %r: %s" % (d1, d2, a[:200]), cfg))
         bad_prefix = [b"#:{:a 1}", b"#:a/b{:a 1}", b"#:a [1]", b"#:a", b"#: a{}", b"#:a{:b}", b"#:a{:b 1 :b 2}", b"#:a{:b 1 :a/b 2}"]
         lines = [docline(d) for d in bad_prefix]
@@ -2257,7 +2389,8 @@ def check_c19(res):
                     if k not in [e[0] for e in exp_entries]:
                         exp_entries.append((k, v))        # outer (earlier) wins
             tgt = rnd.choice(targets_ok)
-            body = " ".join("^" + t for t in texts) + " " + tgt
+            tsep = lambda: rnd.choice([" ", " ", "\n", ",", "\r", "\r\n", "\t", "\x0b", "\x0c", "\x1c", "\x1d", "\x1e", "\x1f", ";c\n", "  "])
+            body = "".join("^" + t + tsep() for t in texts) + tgt
             pos = rnd.choice(["%s", "[0 %s]", "{:x %s}", "(%s)", "[[%s]]"])
             d = (pos % body).encode()
             mlines.append(docline(d))
@@ -2684,6 +2817,8 @@ def check_c17(res):
         # reads whose elements are external values, between changes of the external-type table: the result of a read is
         # a function of the bytes and the table as it is NOW, not of what earlier reads looked up
         check_external_histories(res, cfg, "result-depends-on-earlier-reads-or-lookups", thorough)
+        # (e) the same bytes and length with different memory behind them (a reused buffer, a slice of a larger document)
+        check_following_bytes(res, cfg, "result-depends-on-memory-behind-the-input")
         res.sample({"cfg": cfg, "doc": lines[0][:100]})
 
 
